@@ -45,7 +45,9 @@ func matchField(doc types.Value, exists bool, filter types.Value) (bool, error) 
 
 		switch key.String() {
 		case "$exists":
-			return exists == (value != nil && !reflect.ValueOf(value).IsZero()), nil
+			if exists != (value != nil && !reflect.ValueOf(value).IsZero()) {
+				return false, nil
+			}
 		case "$eq":
 			if !types.Equal(doc, value) {
 				return false, nil
@@ -89,16 +91,20 @@ func matchField(doc types.Value, exists bool, filter types.Value) (bool, error) 
 			if !ok {
 				return false, errors.WithMessagef(ErrUnsupportedType, "value: %v", value.Interface())
 			}
+			any := false
 			for _, sub := range vals.Range() {
 				match, err := matchField(doc, exists, sub)
 				if err != nil {
 					return false, err
 				}
 				if match {
-					return true, nil
+					any = true
+					break
 				}
 			}
-			return false, nil
+			if !any {
+				return false, nil
+			}
 		default:
 			return false, errors.WithMessagef(ErrUnsupportedOperation, "operation: %v", key.String())
 		}
